@@ -29,6 +29,9 @@ func main() {
 	// this kind of machine (the analysis itself is deterministic and does not depend on either setting)
 	if os.Getenv("GOGC") == "" {
 		debug.SetGCPercent(400)
+		if os.Getenv("GOMEMLIMIT") == "" {
+			debug.SetMemoryLimit(4 << 30) // soft limit: the collector works harder instead of growing past ~4 GiB
+		}
 	}
 	if os.Getenv("GOMAXPROCS") == "" && runtime.NumCPU() > 8 {
 		runtime.GOMAXPROCS(8)
